@@ -135,7 +135,7 @@ class Ex:
             if 'field_idx' in e:
                 if is_closure_env and base == ('param', 1, None) or (is_closure_env and base[0] == 'param' and base[1] == 1):
                     nm = self.upvar_names.get(e['field_idx'])
-                    base = ('upvar', nm if nm is not None else 'upvar%d' % e['field_idx'])
+                    base = ('upvar', nm if nm is not None else 'upvar%d' % e['field_idx'], e['field_idx'])
                     is_closure_env = False
                     continue
                 name = e.get('field', str(e['field_idx']))
@@ -165,6 +165,24 @@ class Ex:
             elif 'subslice' in e:
                 base = ('subslice', base, tuple(e['subslice']))
         return base
+
+    def upvar_source(self, idx):
+        """expression, in the parent function, of the value captured as upvar `idx` of this closure
+        (None if the closure's construction site is not found)"""
+        key = ('upsrc', idx)
+        if key in self.memo:
+            return self.memo[key]
+        r = None
+        parent = self.prog.fns.get(getattr(self.fn, 'parent', None) or '')
+        if parent is not None:
+            pe = ex(self.prog, parent)
+            for b in parent.blocks:
+                for st in b['stmts']:
+                    rv = st.get('rv') or {}
+                    if rv.get('agg') in ('closure', 'coroutine', 'coroutine_closure') and rv.get('closure') == self.fn.id and idx < len(rv['ops']):
+                        r = pe.operand(rv['ops'][idx])
+        self.memo[key] = r
+        return r
 
     def local(self, l, depth=0):
         if l in self.memo:
